@@ -379,7 +379,7 @@ THOROUGH = [(a, b) for a in BASE9 for b in BASE9] + \
     [('p%d' % n, 'u16') for n in (1, 4, 9, 12, 15)] + [('u16', 'p%d' % n) for n in (1, 4, 9, 12, 15)] + \
     [('p%d' % a, 'p%d' % b) for a in (1, 2, 4, 5) for b in (3, 6, 8, 10, 16)] + [('p20', 'p24'), ('p24', 'p20'), ('p7', 'u32'), ('u32', 'p7')] + \
     [('p8', 'p%d' % n) for n in (1, 2, 3, 4, 6, 7)] + [('p16', 'p%d' % n) for n in (3, 5, 8, 9, 11, 12, 13, 14)] + \
-    [('p32', 'p%d' % n) for n in (5, 16, 31)] + [('p%d' % n, 'p32') for n in (5, 16, 31)] + [('p32', 'u8'), ('p32', 'u16'), ('u16', 'p32')]
+    [('p32', 'p%d' % n) for n in (5, 16)] + [('p%d' % n, 'p32') for n in (5, 16)] + [('p32', 'u8'), ('p32', 'u16'), ('u16', 'p32')]
 
 UNITS = []
 _seen = set()
@@ -392,7 +392,8 @@ for (a, b) in THOROUGH:
         UNITS.append(conv_unit(a, b, 'thorough'))
 
 META = dict(
-    not_covered=['channel_converter_unsigned_impl generic double path and the <uintmax_t,D,false,true> specialisation: not selected for any provided channel pair (dispatch decided by g++ in the probe)',
+    not_covered=['packed 31 <-> 32 bit pairs (double-precision converter bodies on 32-bit symbolic values: 900 s time-out on every back end; not registered)',
+                 'channel_converter_unsigned_impl generic double path and the <uintmax_t,D,false,true> specialisation: not selected for any provided channel pair (dispatch decided by g++ in the probe)',
                  'channel models that are references/proxies (packed_channel_reference etc.): channel_convert reads them through channel_traits<>::value_type, i.e. the value types verified here'],
     assumptions=['IEEE-754 binary32/binary64 round-to-nearest'],
 )
